@@ -986,7 +986,13 @@ def run_main(argv, disk, torn=None, interrupt=None):
                     k, ex = int(interrupt), 'kbd'
                 hit = interrupted(lambda: box.append(mm.main(list(argv), f_err=err)), k, ex)
                 rc = box[0] if box else None
-                if hit is True:
+                if hit is True or (hit == 'swallowed' and rc is not None):
+                    # the fault left the invocation, or the program caught it
+                    # and reported a failure (main() turns some exceptions
+                    # into an error message and return code 23): a failed
+                    # invocation either way, its outcome is not judged.  Only
+                    # an invocation that swallows the fault and reports
+                    # SUCCESS delivers an ordinary result.
                     raise S.DiskFault('interrupted')
             else:
                 rc = mm.main(list(argv), f_err=err)
